@@ -479,3 +479,39 @@ def cross_member(payload, tier, seed):
     ctx.check('C05.independent-of-other-processors', not diff, wit,
               f'after a processor of {la} served decodes, fresh processors of {lb} decode differently: {diff[:2]}', (la, lb, enc))
     return ctx.result()
+
+
+def activeness_member(desc, tier, seed):
+    """C07: the activeness listed with the enumeration of valid designs is the activeness decoding reports for that row,
+    a variable that is not flagged conditionally active is active in every listed design, and inactive entries carry
+    the canonical value."""
+    from .decode import canonical
+    ctx = Ctx(desc)
+    try:
+        b, gp = make_processor(desc, 'COMPLETE')
+        dvs = gp.des_vars
+        X, A = rows_of(gp)
+    except Exception:
+        return ctx.result()   # construction / enumeration failures are C01's and C04's clauses
+    if X is None:
+        return ctx.result()
+    for x, a in zip(X, A):
+        wit = ['COMPLETE', 'enumerated-row', x]
+        nt = (desc.label, 'row', tuple(x))
+        for k, dv in enumerate(dvs):
+            if not dv.conditionally_active:
+                ctx.check('C07.enumerated-unconditional-always-active', bool(a[k]), wit + [k],
+                          f'variable {k} ({dv.name}) is not flagged conditionally active but listed inactive in row {x}', nt + (k,))
+            if not a[k] and dv.is_discrete:
+                ctx.check('C07.enumerated-inactive-canonical', abs(float(x[k]) - canonical(dv)) < 1e-9, wit + [k],
+                          f'inactive variable {k} listed with value {x[k]}', nt + (k,))
+        for create in (True, False):
+            try:
+                _, xi, ai = gp.get_graph(list(x), create=create)
+            except Exception:
+                continue      # C04.row-decodes-to-itself
+            cont = [k for k, dv in enumerate(dvs) if not dv.is_discrete]
+            ctx.check('C07.enumeration-and-decode-agree-on-activeness',
+                      [bool(v) for k, v in enumerate(ai) if k not in cont] == [bool(v) for k, v in enumerate(a) if k not in cont],
+                      wit + [create], f'row {x}: listed activeness {list(a)}, decode (create={create}) reports {list(map(bool, ai))}', nt + (create,))
+    return ctx.result()
